@@ -2,6 +2,7 @@
 package c18
 
 import (
+	"time"
 	"bytes"
 	"encoding/binary"
 	"errors"
@@ -40,8 +41,18 @@ func gen(r *harn.Rng, tier string) interface{} {
 			switch {
 			case x < 50:
 				sc.Ops = append(sc.Ops, op{K: "w", Dir: r.Intn(2), N: r.Pick(0, 1, 4, 5, 100, 1500, 9000)})
-			case x < 95:
+			case x < 85:
 				sc.Ops = append(sc.Ops, op{K: "r", Dir: r.Intn(2), N: r.Pick(0, 1, 4, 64, 1500, 10000)})
+			case x < 89:
+				// a write refused because the write deadline has passed changes nothing
+				sc.Ops = append(sc.Ops, op{K: "wtimeout", Dir: r.Intn(2), N: r.Pick(0, 4, 100)})
+			case x < 92:
+				// a read with a deadline on an empty end times out and takes nothing
+				sc.Ops = append(sc.Ops, op{K: "rtimeout", Dir: r.Intn(2)})
+			case x < 95:
+				// a blocked reader races with an arriving message and a deadline set to the past:
+				// it returns the message or a timeout, and after a timeout the message is still there
+				sc.Ops = append(sc.Ops, op{K: "racyread", Dir: r.Intn(2), N: r.Pick(4, 100)})
 			default:
 				sc.Ops = append(sc.Ops, op{K: "close", Dir: r.Intn(2)})
 			}
@@ -58,7 +69,7 @@ func gen(r *harn.Rng, tier string) interface{} {
 		x := r.Intn(100)
 		switch {
 		case x < 55:
-			sc.Ops = append(sc.Ops, op{K: "w", Dir: d, N: r.Pick(4, 4, 5, 16, 100, 1200)})
+			sc.Ops = append(sc.Ops, op{K: "w", Dir: d, N: r.Pick(4, 4, 5, 16, 100, 1200, 4, 16, 100, 0)})
 			switch {
 			case pendDrop[d] > 0:
 				pendDrop[d]--
@@ -117,6 +128,9 @@ func gen(r *harn.Rng, tier string) interface{} {
 }
 
 func msg(id uint32, n int) []byte {
+	if n == 0 {
+		return []byte{} // an empty message is a message
+	}
 	if n < 4 {
 		n = 4
 	}
@@ -427,6 +441,64 @@ func runDpipe(env *simrt.Env, sc *scenario) {
 			}
 			if closed[1-e] {
 				env.Probe("read-after-peer-closed")
+			}
+		case "wtimeout":
+			// (dpipe discards what the refused writer has queued for its peer - write deadlines are
+			// outside the property's histories - so this is only done with nothing pending that way;
+			// what is queued *for* the refused writer must survive)
+			if closed[e] || len(q[1-e]) > 0 {
+				continue
+			}
+			_ = ends[e].SetWriteDeadline(env.Now().Add(-time.Second))
+			wn, err := ends[e].Write(make([]byte, o.N))
+			_ = ends[e].SetWriteDeadline(time.Time{})
+			if err == nil || wn != 0 {
+				env.Fail("C18/dpipe-write-past-deadline", "op %d: Write on end %d with a passed write deadline = (%d, %v), want a timeout", i, e, wn, err)
+				return
+			}
+			env.Probe("write-refused-by-deadline")
+		case "rtimeout":
+			if closed[e] || len(q[e]) > 0 {
+				continue
+			}
+			_ = ends[e].SetReadDeadline(env.Now().Add(time.Millisecond))
+			n, err := ends[e].Read(make([]byte, 64))
+			_ = ends[e].SetReadDeadline(time.Time{})
+			if closed[1-e] && errors.Is(err, io.EOF) {
+				continue
+			}
+			if err == nil {
+				env.Fail("C18/dpipe-invented-message", "op %d: Read on end %d, to which nothing is queued, returned %d bytes", i, e, n)
+				return
+			}
+		case "racyread":
+			if closed[e] || closed[1-e] || len(q[e]) > 0 {
+				continue
+			}
+			m := harn.Bytes(uint64(nextID)+5, o.N)
+			binary.BigEndian.PutUint32(m, nextID)
+			nextID++
+			var rn int
+			var rerr error
+			rbuf := make([]byte, 2000)
+			h := env.Go("racyreader", func() { rn, rerr = ends[e].Read(rbuf) })
+			if _, err := ends[1-e].Write(append([]byte(nil), m...)); err != nil {
+				env.Fail("C18/dpipe-write-failed", "op %d: Write on end %d: %v", i, 1-e, err)
+				return
+			}
+			_ = ends[e].SetReadDeadline(env.Now().Add(-time.Second))
+			env.Join(h)
+			_ = ends[e].SetReadDeadline(time.Time{})
+			switch {
+			case rerr == nil:
+				if !bytes.Equal(rbuf[:rn], m) {
+					env.Fail("C18/dpipe-wrong-message", "op %d: the racing Read on end %d returned %d bytes, want the message just written (%d bytes)", i, e, rn, len(m))
+					return
+				}
+				env.Probe("racy-read-got-message")
+			default:
+				q[e] = append(q[e], m) // timed out: the message must still be queued (the drain below / later reads find it)
+				env.Probe("racy-read-timed-out")
 			}
 		case "close":
 			if err := ends[e].Close(); err != nil {
